@@ -421,7 +421,7 @@ class SpecMixin:
             fn = e.func.id
             a = e.args
             if fn == "old":
-                old_names = ctx.extra.get("$old_names") or self.entry.locals
+                old_names = ctx.extra.get("$old_names") or dict(ctx.names, **self.entry.locals)
                 sub = SpecCtx(ctx.old, old_names, ctx.env, ctx.old, ctx.extra)
                 sub.in_old = True
                 return self.sv(a[0], sub)
